@@ -1,5 +1,5 @@
 From C14 Require Import Model.
 Require Extraction.
 Require Import ExtrOcamlBasic.
-Extraction "model.ml" lookup_type nl_read_int digits_value nl_literal_type nl_wrap_value nl_emit c_eval c_convert wrap_T
+Extraction "model.ml" lookup_type nl_read_dec nl_read_int digits_value nl_literal_type nl_wrap_value nl_emit c_eval c_convert wrap_T
   it_inrange it_min it_max nl_int2str nl_uint2str nl_str2int10 nl_str2int int_types.
